@@ -256,7 +256,12 @@ class StmtMixin:
                 for s2, idx in self.ev(target.slice, s1):
                     if isinstance(idx, Exc):
                         raise OutOfSubset('exception in assignment target', target)
-                    if isinstance(base.t, TList):
+                    if isinstance(base.t, TDict):
+                        k = self.coerce(idx, base.t.k)
+                        nv = opt_some(TOpt(base.t.v), self.coerce(v, base.t.v))
+                        newd = Val(base.t, z3.Store(base.e, k.e, nv.e))
+                        out.extend(self.assign(target.value, newd, s2, line))
+                    elif isinstance(base.t, TList):
                         n = list_len(base)
                         self.prove(s2, z3.And(-n <= idx.e, idx.e < n), 'noraise', line, 'list-index-store')
                         nv = self.coerce(v, base.t.elem)
